@@ -9,6 +9,7 @@ import random
 from lib import gram
 
 ID = 'C16'
+TECHNIQUE = 'runtime monitor: exception-class oracle per failure category (by construction), swallowed-failure monitor (M1 on_raise), crash/exit-status watch'
 RULE = ('(a) programs built to fail in exactly one listed way: a fault expression/statement (undefined variable, undefined '
         'function in call/method/pipe spelling, missing key/index read, pop of an empty list, element-adding mutator at the '
         '10000 cap, compound assignment to an undefined name or missing key/index, op budget) placed in every evaluated '
